@@ -83,6 +83,10 @@ def handleSeqDate : Sx → Option Sx
   | .list [.atom "date", .atom "millis", h, mi, s, ms] => do
       let h ← atomNat? h; let mi ← atomNat? mi; let s ← atomNat? s; let ms ← atomNat? ms
       some (okSx (.atom (toString (Date.toMillis h mi s ms))))
+  | .list [.atom "date", .atom "diff", y, m, d, t, y', m', d', t'] => do
+      let y ← atomNat? y; let m ← atomNat? m; let d ← atomNat? d; let t ← atomNat? t
+      let y' ← atomNat? y'; let m' ← atomNat? m'; let d' ← atomNat? d'; let t' ← atomNat? t'
+      some (okSx (.atom (toString (Date.diffDays (Date.stamp y m d t) (Date.stamp y' m' d' t')))))
   | .list [.atom "date", .atom "ofmillis", t] => do
       let t ← atomNat? t
       let (h, mi, s, ms) := Date.ofMillis t
